@@ -225,6 +225,8 @@ def cop(o):
         return f"(Touch {o[1]} {o[2]})"
     if k == 'newobj':
         return f"(NewObj {o[1]} {o[2]})"
+    if k == 'copyobj':
+        return f"(CopyObj {o[1]} {o[2]})"
     if k == 'read':
         return f"(Read {o[1]} {o[2]})"
     if k == 'assign':
@@ -430,7 +432,9 @@ class Impl:
                         hk = getattr(self.classes[im['owner']], f"h{im['hook']}")
                         # 'same_as': the very same Python function object is registered once more (as plugins do with shared defaults)
                         pyfns[i] = pyfns[im['same_as']] if im.get('same_as') in pyfns else make_function(i, im)
-                        hfs[i] = hk(pyfns[i], tryfirst=im['tier'] == 0, trylast=im['tier'] == 2,
+                        # 'via_hf': what is handed over is the HookFunction object the first registration returned (a decorated name), not the plain function
+                        handed = hfs[im['same_as']] if im.get('via_hf') and im.get('same_as') in hfs else pyfns[i]
+                        hfs[i] = hk(handed, tryfirst=im['tier'] == 0, trylast=im['tier'] == 2,
                                     wrapper=im['wrapper'])
                         outs.append(('done',))
                     elif k == 'remove':
@@ -446,6 +450,10 @@ class Impl:
                         outs.append(('done',))
                     elif k == 'newobj':
                         objs[o[1]] = self.classes[o[2]]()
+                        outs.append(('done',))
+                    elif k == 'copyobj':
+                        import copy as _copy
+                        objs[o[1]] = _copy.copy(objs[o[2]])
                         outs.append(('done',))
                     elif k == 'read':
                         outs.append(('val', V.model(_padded(getattr(self, 'stack_pad', 0), lambda: getattr(objs[o[1]], f"h{o[2]}")))))
@@ -661,6 +669,10 @@ def valid_ops(ops):
     for o in ops:
         k = o[0]
         if k == 'newobj':
+            objs.add(o[1])
+        elif k == 'copyobj':
+            if o[2] not in objs:
+                return False
             objs.add(o[1])
         elif k == 'register':
             regs.add(o[1])
